@@ -1,9 +1,56 @@
 import RegexVerif.Sexp
+import RegexVerif.Model.Options
 
 namespace RegexVerif.Driver
-open RegexVerif Sexp
+open RegexVerif Sexp Options
 
-/-- protocol lines with head `c18` (stub) -/
-def handleC18 (_args : List Sexp) : String := "(unimplemented)"
+private def c18Flag : Nat → Option Flag
+  | 0 => some .i | 1 => some .m | 2 => some .n | 3 => some .s | 4 => some .x | _ => none
+
+private def c18Seq (e : Sexp) : Option (List (Flag × Bool)) :=
+  match e with
+  | .list xs => xs.mapM fun p =>
+      match p with
+      | .list [f, b] => do
+        let fl ← (f.nat?).bind c18Flag
+        let pol ← b.bool?
+        pure (fl, pol)
+      | _ => none
+  | _ => none
+
+private partial def c18Pat (e : Sexp) : Option Pat :=
+  match e with
+  | .list [.atom "l", id] => id.nat?.map .leaf
+  | .list [.atom "b", id] => id.nat?.map .bar
+  | .list [.atom "o", seq] => (c18Seq seq).map .opt
+  | .list (.atom "g" :: id :: cap :: kids) => do
+    let i ← id.nat?
+    let c ← cap.nat?
+    let ks ← kids.mapM c18Pat
+    pure (.group i (if c = 1 then .unnamed else if c = 2 then .named else .noncap) ks)
+  | .list (.atom "s" :: id :: seq :: kids) => do
+    let i ← id.nat?
+    let sq ← c18Seq seq
+    let ks ← kids.mapM c18Pat
+    pure (.scoped i sq ks)
+  | _ => none
+
+private def c18Tok : Tok → Sexp
+  | .leaf id o => mk "l" [ofNat id, ofNat o.toMask]
+  | .bar id => mk "b" [ofNat id]
+  | .gopen id c o => mk "g" [ofNat id, ofBool c, ofNat o.toMask]
+  | .gclose id => mk "c" [ofNat id]
+
+/-- `(c18 resolve O (pat item…))` ↦ `(ok tok…)`: the explicit token list under compile options `O`.
+    `(c18 run O (pat item…))` answers with the stack machine over the flattened pattern instead. -/
+def handleC18 (args : List Sexp) : String :=
+  match args with
+  | [mode, o, pat] =>
+    match mode.sym?, o.nat?, (tagged? "pat" pat).bind (fun ks => ks.mapM c18Pat) with
+    | some md, some k, some ps =>
+      let toks := if md == "run" then run (Opts.ofMask k) [] (flatten ps) else resolve (Opts.ofMask k) ps
+      toString (mk "ok" (toks.map c18Tok))
+    | _, _, _ => "(bad-op)"
+  | _ => "(bad-op)"
 
 end RegexVerif.Driver
